@@ -38,12 +38,11 @@ def determineGap (ens : String) (reps : List (Rep α)) : Except GmErr Int :=
   let gap := gaps.foldl min (gaps.headD 1)
   if gaps.all (fun g => Py.fmod g gap == 0) then .ok gap else .error (.noCommonSpacing ens)
 
-/-- `r_length` entry of one chain (obs.py 246-251, after the fix that makes the list case
-    the length of the expanded array) -/
+/-- `r_length` entry of one chain: the length of the expanded array, `(last - first) // gap + 1`, for ranges and
+    lists alike (a range whose stride is a multiple k > 1 of the ensemble's spacing used to be counted as
+    `len * k`, k - 1 phantom steps behind its last configuration) -/
 def rLength (i : Idl) (gap : Int) : Int :=
-  match i with
-  | .range _ n st => Py.fdiv ((n : Int) * st) gap
-  | .list _ => Py.fdiv (i.last - i.first) gap + 1
+  Py.fdiv (i.last - i.first) gap + 1
 
 /-- `_expand_deltas` -/
 def expandDeltas (deltas : List α) (idx : Idl) (gap : Int) : List α :=
